@@ -57,13 +57,15 @@ fn tables() -> Vec<(&'static str, Table)> {
         ("prefix-chain-mixed", mk(&[("+", D(1)), ("*", B(2, false)), ("a", C), ("ab", U), ("abc", B(0, false)), ("b", U)])),
         ("prefix-symbolic", mk(&[("<", B(1, false)), ("<=", B(1, false)), ("<<", B(3, false)), ("<<<", B(0, true)), ("-", D(2)), ("!", U), ("!=", B(1, true)), ("!!", U)])),
         ("greek", mk(&[("+", D(0)), ("·", B(2, true)), ("λ", U), ("λμ", U), ("Σ", U), ("Ω", C), ("ω", C), ("√", U)])),
+        // names of operators that can be binary are proper prefixes of unary-only operators and of constants
+        ("binary-prefix-of-unary-and-constant", mk(&[("+", D(1)), ("-", D(1)), ("--", U), ("*", B(2, true)), ("mx", B(0, false)), ("mxint", C), ("e", B(3, false)), ("exp", U), ("ee", C)])),
         ("digits-in-names", mk(&[("+", D(0)), ("*", B(2, true)), ("f", U), ("f1", U), ("f12", U), ("f_1", U), ("k9", C)])),
     ]
     .into_iter()
     .flat_map(|(name, t)| {
         // the order of the operator table must not matter: every small table also runs reversed
         // (same data type, same number of operators, other positions)
-        if t.len() <= 8 {
+        if t.len() <= 9 {
             let mut r = t.clone();
             r.reverse();
             let rname: &'static str = Box::leak(format!("{name}-reversed").into_boxed_str());
